@@ -151,7 +151,12 @@ impl Family for C05Family {
                 }
                 if o.result.is_ok() {
                     nontrivial = true;
-                    let id = returned_id(o).unwrap_or_default();
+                    // the credential that signed (by signature verification); the id the response
+                    // reports is C03's clause
+                    let id = signer_of(kind, o, o.before.iter().chain(o.after.iter()).chain(rec.final_store.iter()))
+                        .map(|s| s.id.clone())
+                        .or_else(|| returned_id(o))
+                        .unwrap_or_default();
                     // (under concurrency the credential may have been registered by another actor
                     // after this ceremony started)
                     let stored = o.before.iter().chain(o.after.iter()).chain(rec.final_store.iter()).find(|s| s.id == id);
